@@ -43,11 +43,12 @@ import (
 // Ops (model driver): `etopo <node> <present> <ncpus>`, `epod <kind> <snap>…`, `esel <node>`; a pod snapshot is
 // `<uid> <node|0> <terminal> <status 0 absent|1 malformed|2 parsed> <spec 0|1|2> <cpuset 0 ok|1 unparsable> <excl> <nc> cpu… <nn> (cell amt)…`.
 
-// c06UIDSwap (VERIF_C06_UIDSWAP=1, OFF by default): OnUpdate(old, new) whose objects have DIFFERENT UIDs - what a shared
-// informer delivers when a pod was deleted and re-created under the same name (StatefulSet) while the watch was down: the
-// re-list replaces the stored object and no delete event for the old UID follows.  The unchanged handler records the new
-// pod and never releases the old UID (C06:events-replaced-pod-in-ledger); candidate finding, see the final report.
-var c06UIDSwap = os.Getenv("VERIF_C06_UIDSWAP") == "1"
+// c06UIDSwap (ON by default, VERIF_C06_UIDSWAP=0 turns the stream off): OnUpdate(old, new) whose objects have DIFFERENT
+// UIDs - what a shared informer delivers when a pod was deleted and re-created under the same name (StatefulSet) while
+// the watch was down: the re-list replaces the stored object and no delete event for the old UID follows.  The handler
+// recorded the new pod and never released the old UID (C06:events-replaced-pod-in-ledger); repaired in /repo by 224a2b7
+// (OnUpdate: deletePod(old); updatePod(nil, new)).
+var c06UIDSwap = os.Getenv("VERIF_C06_UIDSWAP") != "0"
 
 type c06EvPod struct {
 	uid      int
@@ -760,13 +761,23 @@ func c06EventsCase(h *vHarness, r *vRand) {
 					}
 				}
 			default: // re-list: OnAdd for a known pod
-				if c06UIDSwap && old.live() && r.Bool() { // ... or the re-list finds another pod under the same name
+				if c06UIDSwap && r.Bool() { // ... or the re-list finds another pod under the same name
 					gone := old.clone()
 					gone.deleted, gone.replaced, gone.fresh = true, true, false
 					world[u] = gone
+					if old.live() && old.everOK {
+						leftLedger = true
+					}
 					nw = &c06EvPod{uid: nextUID, phase: corev1.PodRunning, node: old.node, cells: map[int]int64{}}
 					nextUID++
-					drawAlloc(nw, nw.node)
+					if nw.node == 0 && r.Bool() {
+						nw.node = r.Range(1, nodes)
+					}
+					if nw.node != 0 {
+						drawAlloc(nw, nw.node)
+					} else {
+						nw.phase = corev1.PodPending
+					}
 					h.Op("epod 1 %s %s", old.snap(), nw.snap())
 					o, n2 := old.object(), nw.object()
 					podH.OnUpdate(o, n2)
